@@ -111,6 +111,8 @@ def cmd_check(prop, tier, seed, nproc=None):
         mod.run_job, jobs, nproc=nproc, job_timeout=mod.JOB_TIMEOUT,
         wall_budget=budget, on_result=lambda r: mod.aggregate(agg, r))
     rep.harness_errors += errors
+    if hasattr(mod, 'harness_problems'):
+        rep.harness_errors += mod.harness_problems(agg)
     # determinism: same plan twice in this interpreter + once elsewhere
     with runner.quiet():
         fp_a = [mod.execute(p)['fingerprint'] for p in dplans]
